@@ -145,7 +145,10 @@ MapRelease(s, r) == MapWake([s EXCEPT !.mval[r] = @ + 1], r)
 (* a task's coroutine has returned / raised: mark it done and schedule its done-callbacks (gather) *)
 RECURSIVE SchedCbs(_, _, _, _)
 SchedCbs(s, t, cbs, i) == IF i > Len(cbs) THEN s ELSE SchedCbs(CallSoon(s, GcbH(cbs[i], t)), t, cbs, i + 1)
-TaskDone(s, t, how, tok) ==
+TaskDone(s, t, how0, tok) ==
+  (* Task.__step: "Task is cancelled right before coro stops" - a coroutine that RETURNS while must_cancel is set
+     leaves its Task in the cancelled state (open finding KF-K for pool tasks) *)
+  LET how == IF how0 = "ok" /\ s.tk[t].must THEN "canc" ELSE how0 IN
   SchedCbs([s EXCEPT !.tk[t].st = "done", !.tk[t].pc = "done", !.tk[t].dres = how, !.tk[t].etok = tok,
                      !.tk[t].wait = "none", !.tk[t].fst = "none", !.tk[t].must = FALSE],
            t, s.tk[t].cbs, 1)
